@@ -60,6 +60,7 @@ structure Instrument where
   vol : Int
   nsm : Int
   sub : Option (List Int)    -- `gvl` of every allocated sub-instrument; `none` = NULL
+  sids : List Int := []      -- `sid` (sample id) of every allocated sub-instrument (untouched by this path)
   aei : Envelope
   pei : Envelope
   fei : Envelope
@@ -235,10 +236,11 @@ def epilogueSmp (s : Sample) (x : Xtra) : Sample × Xtra :=
     ({ s with fsloop := false, fsloopBidir := false }, { sus := 0, sue := 0 })
   else (s, { sus := sus, sue := sue })
 
-/-- "Never leave a loop flagged that lies outside the data of a loaded sample":
-the epilogue's loop block for one sample -/
+/-- "Never leave a loop flagged that lies outside the data of a loaded sample, nor loop
+points of an unlooped sample that lie outside it": the epilogue's loop block for one sample -/
 def epilogueLoop (s : Sample) : Sample :=
-  if s.hasData && s.floop && (decide (s.lps < 0) || decide (s.lpe > s.len) || decide (s.lps ≥ s.lpe)) then
+  if s.hasData && (decide (s.lps < 0) || decide (s.lpe > s.len) || decide (s.lps > s.lpe)
+                   || (s.floop && decide (s.lps ≥ s.lpe))) then
     { s with lps := 0, lpe := 0, floop := false, floopBidir := false }
   else s
 
@@ -391,6 +393,25 @@ def finish (scan : Nat → ScanRes) (raw : Module) : Except Err Module :=
     | .ok m => scanSequences scan m
   else .error .load
 
+/-! ## compare_vblank_scan (scan.c)
+
+For long Protracker modules (`m->compare_vblank`, VBlank flag clear, first scan
+≥ `VBLANK_TIME_THRESHOLD` ms) `libxmp_scan_sequences` scans order 0 a second time
+with the other timing, from a reset `sequence_control`, and keeps the shorter
+result (time, marks and all).  For the bookkeeping that follows this is the same
+as one first call with the kept result: `vblankScan cv scan` is the behaviour of
+`scan_module` as the rest of `libxmp_scan_sequences` sees it. -/
+
+def vblankScan (cv : Bool) (scan : Nat → ScanRes) : Nat → ScanRes :=
+  if cv && decide ((scan 0).time ≥ (vblankTimeThreshold : Int)) then
+    fun k => if k = 0 then (if (scan 1).time ≥ (scan 0).time then scan 0 else scan 1) else scan (k + 1)
+  else scan
+
+/-- the post-load path with the CIA/VBlank comparison (`cv` = `m->compare_vblank &&
+!(p->flags & XMP_FLAGS_VBLANK)`) -/
+def finishV (cv : Bool) (scan : Nat → ScanRes) (raw : Module) : Except Err Module :=
+  finish (vblankScan cv scan) raw
+
 /-! ## Allocation helpers of loaders/common.c (row ranges) -/
 
 /-- `libxmp_alloc_track(mod, num, rows)`: the rows of the new track, or failure -/
@@ -456,6 +477,15 @@ def sampleOK (s : Sample) : Bool :=
 the common path by the epilogue's loop block) -/
 def sampleLoopOK (s : Sample) : Bool :=
   !(s.hasData && s.floop) || (decide (0 ≤ s.lps) && decide (s.lps < s.lpe) && decide (s.lpe ≤ s.len))
+
+/-- what the epilogue's loop block establishes for EVERY sample with data whose length is
+not negative: ordered loop points inside the data, strictly ordered when flagged as looped -/
+def sampleRangeOK (s : Sample) : Bool :=
+  !s.hasData || decide (s.len < 0) ||
+    (decide (0 ≤ s.lps) && decide (s.lps ≤ s.lpe) && decide (s.lpe ≤ s.len) && (!s.floop || decide (s.lps < s.lpe)))
+
+def sampleRangesOK (m : Module) : Bool :=
+  allBelow m.smp fun i => match m.xxs[i]? with | none => true | some s => sampleRangeOK s
 
 def sampleLoopsOK (m : Module) : Bool :=
   allBelow m.smp fun i => match m.xxs[i]? with | none => true | some s => sampleLoopOK s
@@ -548,7 +578,7 @@ def wfClauses (m : Module) : List (String × Bool) :=
     ("spd", spdOK m), ("bpm", bpmOK m), ("sequences", sequencesOK m), ("sequence_control", seqCtlOK m),
     ("channels", channelsOK m), ("orders", ordersOK m), ("sustain", sustainOK m),
     ("envelopes_upper", envelopesUpperOK m), ("rst_upper", rstUpperOK m),
-    ("sample_loops", sampleLoopsOK m) ]
+    ("sample_loops", sampleLoopsOK m), ("sample_ranges", sampleRangesOK m) ]
 
 def WF (m : Module) : Bool := (wfClauses m).all (·.2)
 
@@ -556,6 +586,51 @@ def WF (m : Module) : Bool := (wfClauses m).all (·.2)
 def WFCommon (m : Module) : Bool :=
   countsOK m && patternsOK m && rstUpperOK m && spdOK m && bpmOK m && channelsOK m
   && envelopesUpperOK m && sustainOK m && ordersOK m && sequencesOK m && seqCtlOK m && sampleLoopsOK m
+  && sampleRangesOK m
+
+/-! ## Loader obligations
+
+What the common post-load path does NOT establish and every format loader
+therefore owes (`LoaderOblig raw`, evaluated by the check on the raw module —
+the state between the loader's `return 0` and the sanity gate — of every real
+load).  Together with a successful `finish` it gives the full `WF`
+(`C03_finish_full`).  The clauses are phrased over the counts the epilogue's
+CLAMPs will leave (`clampCounts`), so a table may be longer than its final
+count but never shorter. -/
+
+/-- the raw module seen with the counts the epilogue's CLAMPs leave -/
+def clampCounts (raw : Module) : Module :=
+  { raw with pat := clampC raw.pat 0 epiPatMax, ins := clampC raw.ins 0 epiInsMax,
+             smp := clampC raw.smp 0 maxSamples, chn := clampC raw.chn 0 xmpMaxChannels }
+
+/-- a sample with data: non-negative length and readable guard frames (`libxmp_load_sample`
+establishes both, C20).  The loop points are repaired by the epilogue (`sampleRangesOK`). -/
+def sampleOblig (s : Sample) : Bool :=
+  !s.hasData || (decide (0 ≤ s.len) && s.guardOK)
+
+def samplesOblig (m : Module) : Bool :=
+  allBelow m.smp fun i => match m.xxs[i]? with | none => false | some s => sampleOblig s
+
+/-- `check_envelope` only tests upper bounds: loop / sustain points whose flag
+survives it must not be negative -/
+def envLowerOblig (e : Envelope) : Bool :=
+  !(e.on && decide (1 ≤ e.npt) && decide (e.npt ≤ (xmpMaxEnvPoints : Int)))
+  || ((!(e.floop && decide (e.lps < e.npt) && decide (e.lpe < e.npt)) || (decide (0 ≤ e.lps) && decide (0 ≤ e.lpe)))
+      && (!(e.fsus && decide (e.sus < e.npt) && decide (e.sue < e.npt)) || (decide (0 ≤ e.sus) && decide (0 ≤ e.sue))))
+
+def envelopesLowerOblig (m : Module) : Bool :=
+  allBelow m.ins fun i =>
+    match m.xxi[i]? with
+    | none => false
+    | some x => envLowerOblig x.aei && envLowerOblig x.pei && envLowerOblig x.fei
+
+/-- the loader obligations, clause by clause -/
+def obligClauses (raw : Module) : List (String × Bool) :=
+  let c := clampCounts raw
+  [ ("rows", rowsOK c), ("subinstruments", subsOK c), ("samples", samplesOblig c),
+    ("envelopes_lower", envelopesLowerOblig c), ("names", namesOK c), ("rst_nonneg", decide (0 ≤ raw.rst)) ]
+
+def LoaderOblig (raw : Module) : Bool := (obligClauses raw).all (·.2)
 
 /-! ## Flag words -/
 
